@@ -24,6 +24,8 @@ type c37Label struct {
 	Len    int    `json:"len,omitempty"`
 	SP     bool   `json:"sp,omitempty"`  // shared-poll route
 	Map    bool   `json:"map,omitempty"` // map route
+	Paged  bool   `json:"paged,omitempty"` // map channel whose state takes two pages
+	Many   []int  `json:"many,omitempty"`  // enqueue through the per-channel batch writer (enqueueMany): payload lengths
 	Script string `json:"script,omitempty"` // ok | err | async
 	Tok    int    `json:"tok,omitempty"`
 	OK     bool   `json:"ok,omitempty"`
@@ -42,6 +44,8 @@ func (l c37Label) coq() string {
 		rt := "RStream"
 		if l.SP {
 			rt = "RSharedPoll"
+		} else if l.Paged {
+			rt = "RMapPaged"
 		} else if l.Map {
 			rt = "RMap"
 		}
@@ -52,6 +56,8 @@ func (l c37Label) coq() string {
 		return vApp("LSrvSub", vN(uint64(l.Name)))
 	case "unsub":
 		return vApp("LUnsub", vN(uint64(l.Name)))
+	case "mapnext":
+		return vApp("LMapNext", vN(uint64(l.Name)))
 	}
 	return vApp("LEnqueue", vN(uint64(l.Size)))
 }
@@ -115,6 +121,8 @@ type c37H struct {
 	scripts map[string]string
 	pending map[int]func(ok bool)
 	mapPending map[int]int // token -> model name of a held map subscribe
+	cmdChan map[uint32]string // command id -> channel (to attribute subscribe results)
+	pages   map[string]*protocol.SubscribeResult // last state page of a paginating map subscription
 	nextTok int
 	// write gate
 	blocked bool
@@ -165,6 +173,9 @@ func (h *c37H) onWrite(data []byte) {
 			case rep.Id != 0:
 				h.mu.Lock()
 				h.evs = append(h.evs, c37Ev{Kind: "reply"})
+				if rep.Subscribe != nil && rep.Subscribe.Cursor != "" {
+					h.pages[h.cmdChan[rep.Id]] = rep.Subscribe
+				}
 				h.mu.Unlock()
 			}
 		}
@@ -179,8 +190,11 @@ func c37Channel(name, length int, sp bool) string {
 	if sp {
 		base = fmt.Sprintf("sp%d", name)
 	}
-	if name >= 20 { // map channels
+	if name >= 20 { // map channels (30.. : pre-populated with two pages of state)
 		base = fmt.Sprintf("m%d", name)
+	}
+	if name == 40 {
+		return "batch" // channel written through the per-channel batch writer
 	}
 	if length > len(base) {
 		base += strings.Repeat("x", length-len(base))
@@ -257,7 +271,7 @@ func (h *c37H) settle(wasClosed *bool) []c37Ev {
 }
 
 func c37Run(t *testing.T, limit, maxlen, maxq int, kind string, r *rand.Rand, fixed []c37Label, steps int) (labels []c37Label, obs [][]c37Ev, snaps []c37Snap) {
-	h := &c37H{t: t, marker: make(chan struct{}, 1), names: map[string]int{}, scripts: map[string]string{}, pending: map[int]func(bool){}, mapPending: map[int]int{},
+	h := &c37H{t: t, marker: make(chan struct{}, 1), names: map[string]int{}, scripts: map[string]string{}, pending: map[int]func(bool){}, mapPending: map[int]int{}, cmdChan: map[uint32]string{}, pages: map[string]*protocol.SubscribeResult{},
 		gate: make(chan struct{}), entered: make(chan struct{}, 1)}
 	cfgv := func(n int) int {
 		if n == 0 {
@@ -269,6 +283,12 @@ func c37Run(t *testing.T, limit, maxlen, maxq int, kind string, r *rand.Rand, fi
 		SharedPoll: SharedPollConfig{GetSharedPollChannelOptions: func(ch string) (SharedPollChannelOptions, bool) {
 			return SharedPollChannelOptions{RefreshInterval: time.Hour, RefreshBatchSize: 10, MaxKeysPerConnection: 10}, strings.HasPrefix(ch, "sp")
 		}},
+		GetChannelBatchConfig: func(ch string) ChannelBatchConfig {
+			if ch == "batch" {
+				return ChannelBatchConfig{MaxSize: 2, MaxDelay: time.Hour}
+			}
+			return ChannelBatchConfig{}
+		},
 		Map: MapConfig{GetMapChannelOptions: func(string) MapChannelOptions {
 			return MapChannelOptions{Mode: MapModeEphemeral, KeyTTL: time.Minute, MinPageSize: 1}
 		}}})
@@ -283,9 +303,21 @@ func c37Run(t *testing.T, limit, maxlen, maxq int, kind string, r *rand.Rand, fi
 		t.Fatal(err)
 	}
 	node.SetMapBroker(mapBroker)
+	for name := 30; name <= 33; name++ {
+		for k := 0; k < 10; k++ {
+			if _, err := mapBroker.Publish(context.Background(), c37Channel(name, 3, false), string(rune('a'+k)), MapPublishOptions{Data: []byte(`{"v":1}`)}); err != nil {
+				t.Fatal(err)
+			}
+		}
+	}
 	node.OnSharedPoll(func(context.Context, SharedPollEvent) (SharedPollResult, error) { return SharedPollResult{}, nil })
 	node.OnConnecting(func(context.Context, ConnectEvent) (ConnectReply, error) {
-		return ConnectReply{Credentials: &Credentials{UserID: "u"}}, nil
+		rep := ConnectReply{Credentials: &Credentials{UserID: "u"}}
+		if strings.Contains(kind, "delay") || strings.Contains(kind, "timer") {
+			rep.WriteDelay = 3 * time.Millisecond
+			rep.WriteWithTimer = strings.Contains(kind, "timer")
+		}
+		return rep, nil
 	})
 	node.OnConnect(func(c *Client) {
 		c.OnSubscribe(func(e SubscribeEvent, cb SubscribeCallback) {
@@ -345,7 +377,7 @@ func c37Run(t *testing.T, limit, maxlen, maxq int, kind string, r *rand.Rand, fi
 	}
 	wasClosed := false
 	h.settle(&wasClosed)
-	if kind == "queue" {
+	plug := func() {
 		// plug the writer: it takes the first message out of the queue and blocks in the transport
 		h.mu.Lock()
 		h.blocked = true
@@ -356,8 +388,16 @@ func c37Run(t *testing.T, limit, maxlen, maxq int, kind string, r *rand.Rand, fi
 		case <-time.After(5 * time.Second):
 			t.Fatalf("writer did not reach the transport")
 		}
-		defer h.release()
 	}
+	defer h.release()
+	plugAt := -1
+	if strings.HasPrefix(kind, "queue") {
+		plugAt = 0
+		if strings.Contains(kind, "many") {
+			plugAt = 1 // after the server-side subscription to the batched channel
+		}
+	}
+	manyBase := -1 // encoded size of a publication push minus its payload, learnt from the first batch
 	cmdID := uint32(1)
 	command := func(cmd *protocol.Command) {
 		done := make(chan bool, 1)
@@ -369,11 +409,23 @@ func c37Run(t *testing.T, limit, maxlen, maxq int, kind string, r *rand.Rand, fi
 		}
 	}
 	used := map[int]c37Label{}
+	paging := map[int]bool{} // paged map subscriptions between their two pages
 	for k := 0; k < steps; k++ {
+		if k == plugAt {
+			plug()
+		}
 		var l c37Label
 		if fixed != nil {
 			l = fixed[k]
-		} else if kind == "queue" {
+		} else if strings.Contains(kind, "many") {
+			if k == 0 {
+				l = c37Label{Kind: "srvsub", Name: 40}
+			} else if k == 1 {
+				l = c37Label{Kind: "enqueue", Many: []int{2, 2}} // small first batch: calibrates the push overhead
+			} else {
+				l = c37Label{Kind: "enqueue", Many: []int{10 + 10*r.Intn(8), 10 + 10*r.Intn(8)}}
+			}
+		} else if strings.HasPrefix(kind, "queue") {
 			l = c37Label{Kind: "enqueue", Size: 40 + 10*r.Intn(12)}
 		} else {
 			x := r.Intn(100)
@@ -429,6 +481,19 @@ func c37Run(t *testing.T, limit, maxlen, maxq int, kind string, r *rand.Rand, fi
 					l = c37Label{Kind: "sub", Name: name, Len: ln, SP: sp, Script: []string{"ok", "ok", "err", "async", "async"}[r.Intn(5)]}
 					used[name] = l
 				}
+			case x < 79 && len(paging) > 0:
+				for n := range paging {
+					l = c37Label{Kind: "mapnext", Name: n}
+					break
+				}
+			case x < 82:
+				name := 30 + r.Intn(3)
+				if _, seen := used[name]; seen {
+					l = c37Label{Kind: "srvsub", Name: 10 + r.Intn(4)}
+				} else {
+					l = c37Label{Kind: "sub", Name: name, Len: 3, Map: true, Paged: true, Script: []string{"ok", "ok", "err"}[r.Intn(3)]}
+					used[name] = l
+				}
 			case x < 87:
 				name := 10 + r.Intn(4)
 				l = c37Label{Kind: "srvsub", Name: name}
@@ -467,7 +532,13 @@ func c37Run(t *testing.T, limit, maxlen, maxq int, kind string, r *rand.Rand, fi
 				req.Type = int32(SubscriptionTypeMap)
 				req.Phase = MapPhaseState
 				req.Limit = 100
+				if l.Paged {
+					req.Limit = 5
+				}
 			}
+			h.mu.Lock()
+			h.cmdChan[cmdID] = ch
+			h.mu.Unlock()
 			command(&protocol.Command{Id: cmdID, Subscribe: req})
 		case "complete":
 			if cb, ok := h.pending[l.Tok]; ok {
@@ -487,10 +558,52 @@ func c37Run(t *testing.T, limit, maxlen, maxq int, kind string, r *rand.Rand, fi
 				case <-time.After(2 * time.Second):
 				}
 			}
+		case "mapnext":
+			ch := c37Channel(l.Name, 3, false)
+			h.mu.Lock()
+			page := h.pages[ch]
+			delete(h.pages, ch)
+			h.mu.Unlock()
+			if page == nil {
+				t.Fatalf("no page to continue for %s", ch)
+			}
+			cmdID++
+			h.mu.Lock()
+			h.cmdChan[cmdID] = ch
+			h.mu.Unlock()
+			command(&protocol.Command{Id: cmdID, Subscribe: &protocol.SubscribeRequest{Channel: ch, Type: int32(SubscriptionTypeMap),
+				Phase: MapPhaseState, Limit: 100, Cursor: page.Cursor, Offset: page.Offset, Epoch: page.Epoch}})
+			delete(paging, l.Name)
 		case "unsub":
 			cmdID++
 			command(&protocol.Command{Id: cmdID, Unsubscribe: &protocol.UnsubscribeRequest{Channel: c37Channel(l.Name, l.Len, l.SP)}})
 		case "enqueue":
+			if len(l.Many) > 0 {
+				before := client.messageWriter.messages.Size()
+				total := 0
+				for _, n := range l.Many {
+					total += n
+				}
+				if manyBase >= 0 {
+					l.Size = len(l.Many)*manyBase + total
+				}
+				for _, n := range l.Many {
+					if _, err := node.Publish("batch", []byte(`"`+strings.Repeat("b", n-2)+`"`)); err != nil {
+						t.Fatalf("publish: %v", err)
+					}
+				}
+				if manyBase < 0 {
+					l.Size = client.messageWriter.messages.Size() - before
+					manyBase = (l.Size - total) / len(l.Many)
+				}
+				if maxq > 0 && before+l.Size > maxq && !wasClosed {
+					deadline := time.Now().Add(2 * time.Second)
+					for !h.isClosed() && time.Now().Before(deadline) {
+						time.Sleep(100 * time.Microsecond)
+					}
+				}
+				break
+			}
 			// payload such that the encoded push has exactly l.Size bytes
 			probe, _ := client.getSendPushReply([]byte(`""`))
 			pad := l.Size - len(probe)
@@ -514,7 +627,14 @@ func c37Run(t *testing.T, limit, maxlen, maxq int, kind string, r *rand.Rand, fi
 		}
 		labels = append(labels, l)
 		evs := h.settle(&wasClosed)
-		if kind == "queue" {
+		if l.Kind == "sub" && l.Paged {
+			h.mu.Lock()
+			if h.pages[c37Channel(l.Name, l.Len, false)] != nil {
+				paging[l.Name] = true
+			}
+			h.mu.Unlock()
+		}
+		if strings.HasPrefix(kind, "queue") {
 			for i := range evs {
 				if evs[i].Kind == "close" {
 					evs[i].Code = 0 // the code is known only after the gate is released: filled in below
@@ -524,7 +644,7 @@ func c37Run(t *testing.T, limit, maxlen, maxq int, kind string, r *rand.Rand, fi
 		obs = append(obs, evs)
 		snaps = append(snaps, h.snapshot())
 	}
-	if kind == "queue" {
+	if strings.HasPrefix(kind, "queue") {
 		h.release()
 		if wasClosed {
 			select {
@@ -566,6 +686,13 @@ func TestVerifC37(t *testing.T) {
 		{4, 6, 0, "subs", []c37Label{sub(1, 6, true, "ok"), sub(2, 7, true, "ok"), sub(3, 12, true, "async")}},                                  // the same on the shared-poll route
 		{2, 8, 0, "subs", []c37Label{{Kind: "sub", Name: 20, Len: 3, Map: true, Script: "async"}, {Kind: "sub", Name: 21, Len: 3, Map: true, Script: "async"}, {Kind: "sub", Name: 22, Len: 3, Map: true, Script: "async"},
 			{Kind: "complete", Tok: 0, OK: true}, {Kind: "complete", Tok: 1, OK: true}, {Kind: "complete", Tok: 2, OK: true}}}, // overlapping map subscribes at limit 2
+		{2, 8, 0, "subs", []c37Label{sub(1, 3, false, "ok"), {Kind: "sub", Name: 30, Len: 3, Map: true, Paged: true, Script: "ok"}, sub(2, 3, false, "ok"),
+			{Kind: "mapnext", Name: 30}, sub(3, 3, false, "ok")}}, // a stream subscribe while a map subscription is between two pages: its slot counts
+		{2, 8, 0, "subs", []c37Label{sub(1, 3, false, "ok"), {Kind: "sub", Name: 30, Len: 3, Map: true, Paged: true, Script: "ok"}, {Kind: "srvsub", Name: 10}, {Kind: "mapnext", Name: 30}}},
+		{0, 0, 200, "queue-delay", []c37Label{{Kind: "enqueue", Size: 90}, {Kind: "enqueue", Size: 90}, {Kind: "enqueue", Size: 90}}},
+		{0, 0, 200, "queue-timer", []c37Label{{Kind: "enqueue", Size: 90}, {Kind: "enqueue", Size: 90}, {Kind: "enqueue", Size: 90}}},
+		{0, 0, 300, "queue-many", []c37Label{{Kind: "srvsub", Name: 40}, {Kind: "enqueue", Many: []int{2, 2}}, {Kind: "enqueue", Many: []int{60, 60}}, {Kind: "enqueue", Many: []int{60, 60}}}},
+		{0, 0, 300, "queue-timer-many", []c37Label{{Kind: "srvsub", Name: 40}, {Kind: "enqueue", Many: []int{2, 2}}, {Kind: "enqueue", Many: []int{60, 60}}, {Kind: "enqueue", Many: []int{60, 60}}}},
 		{0, 0, 200, "queue", []c37Label{{Kind: "enqueue", Size: 90}, {Kind: "enqueue", Size: 90}, {Kind: "enqueue", Size: 90}}},              // third crosses 200
 		{0, 0, 200, "queue", []c37Label{{Kind: "enqueue", Size: 100}, {Kind: "enqueue", Size: 100}, {Kind: "enqueue", Size: 40}}},            // exactly 200 is fine, 240 is slow
 	}
@@ -580,7 +707,12 @@ func TestVerifC37(t *testing.T) {
 			f = corpus[i]
 			steps = len(f.labels)
 		} else if r.Intn(4) == 0 {
-			f = fx{0, 0, 150 + 50*r.Intn(4), "queue", nil}
+			// the slow-consumer decision in every writer mode, through enqueue and enqueueMany
+			mode := []string{"queue", "queue-delay", "queue-timer", "queue-many", "queue-delay-many", "queue-timer-many"}[r.Intn(6)]
+			f = fx{0, 0, 150 + 50*r.Intn(4), mode, nil}
+			if strings.Contains(mode, "many") {
+				f.maxq = 300 + 100*r.Intn(3)
+			}
 			steps = 3 + r.Intn(6)
 		} else {
 			f = fx{2 + r.Intn(3), 6 + r.Intn(3), 0, "subs", nil}
